@@ -100,18 +100,24 @@ def lenient_split(buf: bytes):
 
 # ------------------------------------------------------------------ the accessory
 class Captured:
-    __slots__ = ("raw", "calls", "secure", "info")
+    __slots__ = ("raw", "calls", "secure", "info", "host", "conn")
 
-    def __init__(self, raw, calls, secure, info):
+    def __init__(self, raw, calls, secure, info, host=None, conn=0):
         self.raw, self.calls, self.secure, self.info = raw, calls, secure, info
+        self.host, self.conn = host, conn      # peer address / ordinal of the connection it was written to
 
 
 class Accessory:
-    def __init__(self, pairing_id: str, ltsk: ed25519.Ed25519PrivateKey, accessories_json: bytes):
+    def __init__(self, pairing_id: str, ltsk: ed25519.Ed25519PrivateKey, accessories_json: bytes,
+                 host: str | None = None, conn: int = 0, sink: list | None = None):
+        """One instance per TCP connection; `sink` (shared by the connections of a session) receives the requests."""
         self.pairing_id = pairing_id
         self.ltsk = ltsk
         self.accessories_json = accessories_json
+        self.host, self.conn = host, conn
         self.reset()
+        if sink is not None:
+            self.captured = sink
 
     def reset(self):
         self.secure = False
@@ -156,7 +162,7 @@ class Accessory:
                 break
             raw, rest, info = r
             was_secure = self.secure
-            self.captured.append(Captured(raw, list(self.buf_calls), was_secure, info))
+            self.captured.append(Captured(raw, list(self.buf_calls), was_secure, info, self.host, self.conn))
             self.plain_buf = bytearray(rest)
             self.buf_calls = [idx] if (rest or self.cipher_buf) else []
             resp = self.respond(info)
@@ -255,6 +261,18 @@ class MemTransport(asyncio.Transport):
 
     def abort(self):
         self.close()
+
+    def peer_close(self):
+        """The accessory closes the TCP connection: EOF, then connection_lost (as the selector transport does)."""
+        if not self._closing:
+            self._closing = True
+
+            def _lost():
+                try:
+                    self._protocol.eof_received()
+                finally:
+                    self._protocol.connection_lost(None)
+            self._loop.call_soon(_lost)
 
     def can_write_eof(self):
         return True
